@@ -122,10 +122,28 @@ Definition coll_spec_view (fl : flavor) (c : coll) : coll_view :=
                  | Card => [("text/vcard", "3.0"); ("text/vcard", "4.0")]%string
                  end |}.
 
+(** A media type is compared by type/subtype (RFC 7231 section 3.1.1.1: case-insensitive;
+    parameters such as charset are not constrained by the property): what precedes the
+    first ";", without surrounding white space, in lower case. *)
+Definition lower_ascii (c : ascii) : ascii :=
+  let n := N_of_ascii c in if (N.leb 65 n) && (N.leb n 90) then ascii_of_N (n + 32) else c.
+Fixpoint lower_string (s : string) : string :=
+  match s with EmptyString => EmptyString | String c r => String (lower_ascii c) (lower_string r) end.
+Definition media_essence (s : string) : string :=
+  lower_string (trim_space (match split_at ";" s with Some (a, _) => a | None => s end)).
+(** the rows of DAV:getcontenttype, reduced to the essence of their media type *)
+Definition norm_row (r : row) : row :=
+  match r with
+  | PropRow h (Elem n a ks) c =>
+    if xname_eqb n n_getcontenttype then PropRow h (Elem n a (text_nodes (media_essence (chardata ks)))) c else r
+  | _ => r
+  end.
+Definition norm_table (t : option (list row)) : option (list row) := option_map (map norm_row) t.
+
 Definition body_checks (model_tree obs_tree : xtree) (obs_table : option (list row)) : bool :=
   xtree_eqb model_tree obs_tree && opt_table_eqb (rfc4918_read_multistatus model_tree) obs_table.
 Definition table_spec (expected : list row) (obs_table : option (list row)) : bool :=
-  match obs_table with Some t => table_same_b t expected | None => false end.
+  match norm_table obs_table with Some t => table_same_b t expected | None => false end.
 
 (** The ContentLength field of a client's object is not among the things the property
     says must reach the client unchanged: the specification accepts 0 (the clients do not
@@ -155,7 +173,7 @@ Definition extra_row_ok (answers : list (string * (xname -> xtree * Z))) (r : ro
   end.
 Definition table_spec_rel (known : list xname) (answers : list (string * (xname -> xtree * Z)))
            (expected : list row) (obs_table : option (list row)) : bool :=
-  match obs_table with
+  match norm_table obs_table with
   | Some t => table_same_b (filter (row_known known) t) expected
               && forallb (fun r => row_known known r || extra_row_ok answers r) t
   | None => false
